@@ -220,3 +220,115 @@ pub fn fmt_concat(a: Str, b: &Str) -> (r: Str) ensures r@ == a@ + b@ { unimpleme
 pub fn concat(path: &PathBuf, val: &Str) -> (r: RvResult<PathBuf>)
     ensures r is Ok == path.utf8_ok(), r is Ok ==> r->Ok_0.pstr() == path.pstr() + val@,     //@ clause concat.appends_without_separator [C15]
 //@ body
+
+// ---- trim_protocol: removes one leading file:// ftp:// http:// https:// prefix (case-insensitive) and nothing else
+pub open spec fn find_dslash(s: Seq<char>, i: int) -> int decreases s.len() - i {
+    if i < 0 || i + 1 >= s.len() { -1 } else if s[i] == '/' && s[i + 1] == '/' { i } else { find_dslash(s, i + 1) }
+}
+pub open spec fn strip_all(x: Seq<char>, lit: Seq<char>) -> Seq<char> decreases x.len() {
+    if lit.len() > 0 && is_prefix(lit, x) { strip_all(x.skip(lit.len() as int), lit) } else { x }
+}
+impl Str {
+    // str::find("//"): byte offset of the first occurrence.  ASSUMED[str-find]
+    #[verifier::external_body]
+    pub fn find_dslash(&self) -> (r: Option<usize>)
+        ensures find_dslash(self@, 0) < 0 ==> r is None,
+                find_dslash(self@, 0) >= 0 ==> r is Some && r->Some_0 == byte_len(self@.take(find_dslash(self@, 0))),
+                byte_len(self@) <= isize::MAX,      // ASSUMED[alloc-limit]: a String holds at most isize::MAX bytes
+    { unimplemented!() }
+    // str::split_at(n): panics unless n is a char boundary
+    #[verifier::external_body]
+    pub fn split_at(&self, n: usize) -> (r: (Str, Str))
+        requires n <= byte_len(self@), is_boundary(self@, n as int)
+        ensures exists|k: int| 0 <= k <= self@.len() && #[trigger] byte_len(self@.take(k)) == n && r.0@ == self@.take(k) && r.1@ == self@.skip(k)
+    { unimplemented!() }
+    // str::trim_start_matches(lit): removes every leading repetition of lit
+    #[verifier::external_body]
+    pub fn trim_start_matches(&self, lit: &'static str) -> (r: Str) ensures r@ == strip_all(self@, lit@) { unimplemented!() }
+}
+// ASSUMED[ascii-width]: '/' is one byte
+#[verifier::external_body]
+pub proof fn ax_slash() ensures char_len('/') == 1 { }
+pub proof fn lemma_dslash(s: Seq<char>, i: int)
+    requires 0 <= i
+    ensures find_dslash(s, i) >= 0 ==> i <= find_dslash(s, i) && find_dslash(s, i) + 2 <= s.len() && s[find_dslash(s, i)] == '/' && s[find_dslash(s, i) + 1] == '/'
+    decreases s.len() - i
+{
+    if i + 1 < s.len() && !(s[i] == '/' && s[i + 1] == '/') { lemma_dslash(s, i + 1); }
+}
+pub proof fn lemma_dslash_boundary(s: Seq<char>)
+    requires find_dslash(s, 0) >= 0
+    ensures ({ let k = find_dslash(s, 0); byte_len(s.take(k + 2)) == byte_len(s.take(k)) + 2 && is_boundary(s, byte_len(s.take(k)) as int + 2) && byte_len(s.take(k)) + 2 <= byte_len(s) })
+{
+    let k = find_dslash(s, 0);
+    lemma_dslash(s, 0);
+    ax_slash();
+    assert(s.take(k + 2).drop_last() =~= s.take(k + 1));
+    assert(s.take(k + 1).drop_last() =~= s.take(k));
+    assert(s.take(k + 2).last() == '/' && s.take(k + 1).last() == '/');
+    assert(byte_len(s.take(k + 2)) == byte_len(s.take(k + 2).drop_last()) + char_len('/'));
+    assert(byte_len(s.take(k + 1)) == byte_len(s.take(k + 1).drop_last()) + char_len('/'));
+    assert(byte_len(s.take(k + 2)) == byte_len(s.take(k)) + 2);
+    lemma_byte_len_mono(s, k + 2, s.len() as int);
+    assert(s.take(s.len() as int) =~= s);
+}
+//@ obligation lemma_dslash props=C15
+//@ obligation lemma_dslash_boundary props=C15
+pub open spec fn spec_trim_protocol(s: Seq<char>) -> Seq<char> {
+    let k = find_dslash(s, 0);
+    if k < 0 { s } else {
+        let prefix = s.take(k + 2);
+        let l = strip_all(strip_all(strip_all(strip_all(lower(prefix), "file://"@), "ftp://"@), "http://"@), "https://"@);
+        if l.len() > 0 { s } else { s.skip(k + 2) }
+    }
+}
+//@ item trim_protocol file=src/sys/fs/path.rs fn=trim_protocol props=C15,C05,C12
+//@ sig pub fn trim_protocol<T: AsRef<Path>>(path: T) -> PathBuf
+//@ rw R4 1 ⟦base.find("//")⟧ => ⟦base.find_dslash()⟧
+//@ rw R4 * re⟦format!\("\{\}\{\}", (\w+), (\w+)\)⟧ => ⟦&fmt_concat(\1, &\2)⟧
+//@ rw R1 * re⟦PathBuf::from\(⟧ => ⟦PathBuf::from_s(⟧
+//@ rw R1 * ⟦PathBuf::from_s(suffix)⟧ => ⟦PathBuf::from_s(&suffix)⟧
+//@ rw R1 * ⟦PathBuf::from_s(base)⟧ => ⟦PathBuf::from_s(&base)⟧
+//@ ins start
+    proof {
+        if path.utf8_ok() && find_dslash(path.pstr(), 0) >= 0 {
+            lemma_dslash_boundary(path.pstr());
+            lemma_dslash(path.pstr(), 0);
+            let s = path.pstr(); let k = find_dslash(s, 0);
+            assert forall|j: int| 0 <= j <= s.len() && #[trigger] byte_len(s.take(j)) == byte_len(s.take(k)) + 2 implies j == k + 2 by { lemma_boundary_unique(s, j, k + 2); }
+            assert(s.take(k + 2) + s.skip(k + 2) =~= s);
+        }
+    }
+//@ endins
+pub fn trim_protocol(path: &PathBuf) -> (r: PathBuf)
+    ensures path.utf8_ok() ==> r.pstr() == spec_trim_protocol(path.pstr()),     //@ clause trim_protocol.removes_one_scheme_prefix_only [C15,C05]
+            !path.utf8_ok() ==> r.pstr() == path.pstr() && r.comps() == path.comps(),
+//@ body
+
+// the four documented schemes are recognised in any casing (the lowercase form of the text up to the first `//` is the scheme)
+pub proof fn lemma_schemes_recognised(s: Seq<char>)
+    requires find_dslash(s, 0) >= 0,
+             lower(s.take(find_dslash(s, 0) + 2)) == "file://"@ || lower(s.take(find_dslash(s, 0) + 2)) == "ftp://"@
+             || lower(s.take(find_dslash(s, 0) + 2)) == "http://"@ || lower(s.take(find_dslash(s, 0) + 2)) == "https://"@
+    ensures spec_trim_protocol(s) == s.skip(find_dslash(s, 0) + 2)          //@ clause trim_protocol.scheme_removed_case_insensitively [C15]
+{
+    reveal_strlit("file://"); reveal_strlit("ftp://"); reveal_strlit("http://"); reveal_strlit("https://");
+    let e = Seq::<char>::empty();
+    let f = "file://"@; let t = "ftp://"@; let h = "http://"@; let hs = "https://"@;
+    assert(f.take(7) =~= f && f.skip(7) =~= e);
+    assert(t.take(6) =~= t && t.skip(6) =~= e);
+    assert(h.take(7) =~= h && h.skip(7) =~= e);
+    assert(hs.take(8) =~= hs && hs.skip(8) =~= e);
+    reveal_with_fuel(strip_all, 3);
+    assert(strip_all(e, f) == e && strip_all(e, t) == e && strip_all(e, h) == e && strip_all(e, hs) == e);
+    assert(strip_all(f, f) == e);
+    assert(strip_all(t, t) == e);
+    assert(strip_all(h, h) == e);
+    assert(strip_all(hs, hs) == e);
+    // a scheme is untouched by the strippers of the other schemes that run before it
+    assert(!is_prefix(f, t) && !is_prefix(f, h) && !is_prefix(f, hs) && !is_prefix(t, h) && !is_prefix(t, hs)) by {
+        assert(t[0] == 'f' && t[1] == 't'); assert(f[1] == 'i'); assert(h[0] == 'h'); assert(hs[0] == 'h');
+    }
+    assert(!is_prefix(h, hs)) by { assert(h[4] == ':' && hs[4] == 's'); }
+}
+//@ obligation lemma_schemes_recognised props=C15
